@@ -100,6 +100,7 @@ func c14(c *Ctx) {
 	c14PackedKeys(c)
 	c14FlushOnPush(c, htcp)
 	c14NextHopOfPeer(c)
+	c14PayloadIsWhatWasRead(c)
 	// the payload the segment handler sees ends where the IP datagram ends, not where the Ethernet frame ends (shared with C20)
 	c20FrameTrimmed(c)
 	checksumOddOctetHigh(c, "checksum-odd-octet-high", "Odd-length segments with a non-zero last octet are dropped as corrupt or answered with a checksum the peer rejects.")
